@@ -82,16 +82,18 @@ pub fn stmts() -> ZooLang {
         .rule("number", pat("[0-9]+"))
         .rule("comment", token(seq(vec![s("#"), pat("[^\\n]*")])))
         .rule("block_comment", token(seq(vec![s("/*"), pat("[^*]*\\*+([^/*][^*]*\\*+)*"), s("/")])))
-        .extras(vec![pat("\\s"), sym("comment"), sym("block_comment")]);
+        // a NON-TERMINAL extra: `~ name` may appear anywhere, is reduced like a rule and then attached as an extra
+        .rule("pragma", seq(vec![s("~"), sym("identifier")]))
+        .extras(vec![pat("\\s"), sym("comment"), sym("block_comment"), sym("pragma")]);
     ZooLang {
         name: "stmts", spec: spec(g, None),
-        lexemes: vec!["let", "if", "else", "fn", "a", "1", "=", ";", "{", "}", "(", ")", "+", "*", "..", "...", ",", "#c\n", "/*c*/", "@", "$", "%", " ", "\n"],
+        lexemes: vec!["let", "if", "else", "fn", "a", "1", "=", ";", "{", "}", "(", ")", "+", "*", "..", "...", ",", "#c\n", "/*c*/", "@", "$", "%", "~", " ", "\n"],
         seeds: vec![
             "", "a;", "let a = 1;", "let x = a + 1 * b;\nf(x, 2);\n", "if a { b; } else { c; }", "if a { } else if b { c; } else { d; }",
             "fn f(a, b) { let c = a..b; g(c)(1); }", "{ a; # note\n b; /* x */ c; }", "let a = (1 + 2) * 3 ... 4;", "lett = 1;", "let let = 1;",
             "if a { b;", "a b;", "fn (a) {}", "let a = 1 @;", "{{{ a; }}}", "a;b;c;d;e;f;g;h;", "iff; elsee; fnn; if_x;", "let é = 1;", "1..2...3;", "@ /*a\nb*/ x;", "@/*c*/ /*d*/ @ /*e*/",
             // keyword text used as an identifier (a keyword is only a keyword where the grammar allows it), first leaf of a call
-            "a+if(b);", "a*let(b);", "a+fn(b);", "f(else);", "$a; %b;", "$ if;",
+            "a+if(b);", "a*let(b);", "a+fn(b);", "f(else);", "$a; %b;", "$ if;", "a ~x + b; ~y", "let ~p a = ~q 1;", "{ ~a }", "~", "~ let",
         ],
         skippable: b" \t\r\n", has_scanner: false,
     }
